@@ -982,6 +982,12 @@ fn mode_paging(r: &mut StdRng, scn: usize, n_req: usize, out: &mut Vec<Value>) -
         req["bmw_block_size"] = json!(r.gen_range(1..=8));
       }
       push(format!("execution {exec}"), None, &req, &mut variants).ok();
+      // pruning only starts once the top-k is full: small limits, small blocks
+      let mut req = mk(r.gen_range(1..=3), exec, &[]);
+      if exec == "bmw" {
+        req["bmw_block_size"] = json!(r.gen_range(1..=3));
+      }
+      push(format!("execution {exec}, small limit"), None, &req, &mut variants).ok();
     }
     for (ex, pr) in [(true, false), (false, true), (true, true)] {
       let mut req = mk(r.gen_range(1..=50), *pick(r, &["bm25", "wand", "bmw"]), &[]);
